@@ -146,8 +146,11 @@ pub struct Plan {
     pub kind: usize,
     /// false = clean class (no fault annotations at all), true = fault-injecting class
     pub faulty: bool,
+    /// element shape for vector kinds: 0 = `Tok` (8 bytes, align 4), 1 = `Wide` (16 bytes, align 16)
+    pub elem: u8,
     pub ops: Vec<Op>,
 }
+pub const ELEM_NAMES: [&str; 2] = ["Tok", "Wide16"];
 
 /// The std-provided `Iterator` / `DoubleEndedIterator` methods driven through `it.by_ref()`
 /// (operation `Adapt`). A realistic change is overriding one of them "for speed".
